@@ -303,9 +303,17 @@ struct Notice {
 }
 
 fn gen_payload(b64_flag: bool, ser: Ser, detached: bool) -> Vec<u8> {
-  let kind = if b64_flag { ctx::choose(5) } else { 1 + ctx::choose(4) };
+  // binary payloads need base64url encoding unless they travel detached (then any bytes can be signed un-encoded)
+  let kind = if b64_flag || (detached && ser != Ser::General) { ctx::choose(5) } else { 1 + ctx::choose(4) };
   let mut p: Vec<u8> = match kind {
-    0 => ctx::bytes(1 + ctx::choose(40)),
+    0 => {
+      let mut b = ctx::bytes(1 + ctx::choose(40));
+      // make sure some payloads are not valid UTF-8 (lone continuation / invalid lead bytes)
+      if ctx::choose(2) == 0 {
+        b.extend_from_slice(&[0xff, 0xfe, 0x80, 0xc0]);
+      }
+      b
+    }
     1 => format!("notice {}", ctx::choose(10_000)).into_bytes(),
     2 => format!("{{\"msg\":\"hello\",\"n\":{}}}", ctx::choose(1000)).into_bytes(),
     3 => format!("he said \"hi\" \\ back\\slash {}", ctx::choose(100)).into_bytes(),
@@ -345,7 +353,10 @@ fn header_json(signer: &Signer, b64_flag: bool, explicit_b64_true: bool, nonce: 
     h["nonce"] = n.clone().into();
   }
   if extra {
-    h["typ"] = "notice+jws".into();
+    h["typ"] = ["notice+jws", "application/notice+jws", "application/example;part=\"1/2\""][ctx::choose(3)].into();
+    if ctx::choose(2) == 0 {
+      h["cty"] = ["text/plain", "application/json", "json"][ctx::choose(3)].into();
+    }
     h["simParam"] = Value::from(ctx::choose(100) as u64);
   }
   h
@@ -569,11 +580,13 @@ fn produce_create_jws(signers: &[Signer], si: usize, faulty: bool) -> Option<Not
   if ctx::choose(3) == 0 {
     opts = opts.attach_jwk_to_header(true);
   }
-  if ctx::choose(3) == 0 {
-    opts = opts.typ("notice+jws".to_owned());
+  let opt_typ: Option<&str> = if ctx::choose(3) == 0 { Some(["notice+jws", "application/notice+jws"][ctx::choose(2)]) } else { None };
+  if let Some(t) = opt_typ {
+    opts = opts.typ(t.to_owned());
   }
-  if ctx::choose(3) == 0 {
-    opts = opts.cty("text/plain".to_owned());
+  let opt_cty: Option<&str> = if ctx::choose(3) == 0 { Some(["text/plain", "application/json"][ctx::choose(2)]) } else { None };
+  if let Some(c) = opt_cty {
+    opts = opts.cty(c.to_owned());
   }
   if ctx::choose(4) == 0 {
     opts = opts.url(identity_core::common::Url::parse("https://notice.example/a").unwrap());
@@ -660,6 +673,19 @@ fn produce_create_jws(signers: &[Signer], si: usize, faulty: bool) -> Option<Not
   let ev = log.get(before..).and_then(|s| s.last())?;
   let protected_b64 = jws.split('.').next().unwrap_or("").to_owned();
   let protected: Value = b64url_decode(&protected_b64).and_then(|b| serde_json::from_slice(&b).ok()).unwrap_or(Value::Null);
+  // the emitted (and signed) protected header carries exactly what the options asked for
+  let want_typ = opt_typ.unwrap_or("JWT");
+  if protected.get("typ").and_then(|t| t.as_str()) != Some(want_typ)
+    || protected.get("cty").and_then(|t| t.as_str()) != opt_cty
+    || protected.get("nonce").and_then(|t| t.as_str()) != nonce.as_deref()
+  {
+    ctx::violation(
+      "C08",
+      "C08.produced_token_decodes_and_verifies",
+      "create_jws/header-differs-from-options",
+      format!("create_jws emitted protected header {protected} for options typ={opt_typ:?} cty={opt_cty:?} nonce={nonce:?}"),
+    );
+  }
   let signed_payload: Vec<u8> = if b64_flag { b64(&raw).into_bytes() } else { raw.clone() };
   Some(Notice {
     ser: Ser::Compact,
